@@ -27,9 +27,10 @@ for m in sorted(glob.glob(os.path.join(ROOT, "seeded", "*", "meta.json"))):
         for line in open(readme):
             if line.strip().startswith("#"):
                 title = line.strip("# \n"); break
-    srows.append("| %s | %s | %s | %s | %s |" % (d["name"], d["breaks_property"], esc(title[:140]),
-                 "yes" if d.get("confirmed") or (d.get("demo_clean_exit") == 0 and d.get("demo_mutated_exit") not in (0, None)) else "no", "; ".join(caught)))
-t10 = "| seed | property | change (title of its README) | demo passes clean / fails mutated | checks run against it (state at the time it was last run) |\n|---|---|---|---|---|\n" + "\n".join(srows)
+    base = str(d.get("base_commit", ""))[:7] + (" (patch no longer applies at %s)" % d["no_longer_applies_at"][:7] if d.get("no_longer_applies_at") else "")
+    srows.append("| %s | %s | %s | %s | %s | %s |" % (d["name"], d["breaks_property"], esc(title[:140]),
+                 "yes" if d.get("confirmed") or (d.get("demo_clean_exit") == 0 and d.get("demo_mutated_exit") not in (0, None)) else "no", "; ".join(caught), base))
+t10 = "| seed | property | change (title of its README) | demo passes clean / fails mutated | checks run against it (state at the time it was last run) | /repo commit it was last evaluated on |\n|---|---|---|---|---|---|\n" + "\n".join(srows)
 # section 11: measured trusted base per property, from the evidence files the checks wrote on /repo
 trows = []
 allax = set()
